@@ -72,7 +72,28 @@ def server_message(kind, rid, method, psel, leaf):
     return d
 
 
-def _deliver_all(msgs):
+class _UndrainedNotify:
+    """the stdio client's side stream for notifications (`client.notifications`): users of stdio_client() never read
+    it, so it fills up to its capacity and then refuses"""
+
+    def __init__(self, cap):
+        self.cap, self.items = cap, []
+
+    def send_nowait(self, item):
+        if len(self.items) >= self.cap:
+            import anyio as _anyio
+
+            raise _anyio.WouldBlock()
+        self.items.append(item)
+
+    async def send(self, item):
+        self.send_nowait(item)
+
+    async def aclose(self):
+        pass
+
+
+def _deliver_all(msgs, notify_cap=None):
     """the same decoded server messages through the four inbound paths; returns four lists of dumped objects"""
     import copy
 
@@ -80,6 +101,8 @@ def _deliver_all(msgs):
     outs = []
     # 1 stdio
     c = make_client()
+    if notify_cap is not None:
+        c._notify_send = _UndrainedNotify(notify_cap)
     for d in msgs:
         drive(c._process_message_data(copy.deepcopy(d)))
     outs.append([dump(m) for m in c._incoming_send.items])
@@ -339,3 +362,24 @@ def roundtrip_long(k, pat, legacy_mode, typed):
     """size dimension: results and notifications carry a string of c-1, c, c+1 characters (raw UTF-8 on the wire: the engine's own JSON encoder, which replaces the stdlib one inside a traced path, recurses per character when escaping)"""
     n = _sizes.pick(_sizes.size_cases(70000, extra=_sizes.ENV_SIZES), k)
     return roundtrip(1, 0, 1, legacy_mode, typed, blob=_sizes.long_text(n, pat))
+
+
+def conversation_undrained(n_notes, cap, rid_sel, err):
+    """n notifications then the response; nobody reads the stdio client's notification side stream, whose capacity
+    is `cap` (symbolic): the read stream must be the same on all four carriers"""
+    rid = pick_rt_id(rid_sel)
+    msgs = [server_message(2, None, "notifications/message", 2, "x") for _ in range(n_notes)]
+    for i in range(n_notes):
+        msgs[i]["params"]["seq"] = i
+    msgs.append(server_message(1 if err else 0, rid, None, 5, "x"))
+    outs = _deliver_all(msgs, notify_cap=cap)
+    for i in range(4):
+        if not same_json(outs[i], msgs):
+            return "conversation-differs-on:" + NAMES[i]
+    return "ok"
+
+
+def conversation_many(k, cap, lim=410):
+    """count dimension: c-1, c, c+1 notifications before the response (c: integer constants of the source)"""
+    n = _sizes.pick(_sizes.size_cases(lim), k)
+    return conversation_undrained(n, cap, 1, False)
